@@ -1100,6 +1100,7 @@ class Grammar(PGFile):
                 if match == term.recognizer.value:
                     term.recognizer = RegExRecognizer(
                         rf"\b{re.escape(match)}\b",
+                        name=match,
                         ignore_case=term.recognizer.ignore_case,
                     )
                     term.keyword = True
